@@ -255,6 +255,8 @@ pub fn alphabet_full() -> Vec<Op> {
         UpdateName(s("nm"), None, s("nmx"), None, s("Sheet1!$A$1")),
         UpdateName(s("nm"), None, s("nm"), Some(0), s("Sheet1!$A$2")),
         UpdateName(s("x1"), None, s("x1"), None, s("Sheet2!$A$1")),
+        // rename, re-scope and re-define at once (readers of the name are on the other sheet)
+        UpdateName(s("nm"), None, s("nmy"), Some(1), s("Sheet1!$A$2")),
         DeleteName(s("nm"), None),
         DeleteName(s("loc"), Some(1)),
         DeleteName(s("x1"), None),
